@@ -124,6 +124,20 @@ theorem C38_table (a : AlgoParams) (ha : a ∈ Gen.symmetricRows) (m : Mode) (cs
   ⟨C38_fits a ok m cs h hcs n hn0 hn, C38_sizeField a ok m n hn0, (C38_aligned a ok n hn0).1,
    C38_tight a ok cs h hcs⟩
 
+/-- … and for the same policies: a larger negotiated chunk never shrinks the
+    body, the body is positive and below the chunk size, and at most 72 bytes
+    of a chunk (headers 24, signature ≤ 32, padding byte, one 16-byte block − 1)
+    are not body — so at the protocol minimum 8192 at least 8120 bytes are -/
+theorem C38_table_efficiency (a : AlgoParams) (ha : a ∈ Gen.symmetricRows) (cs cs' : Int)
+    (h : 8192 ≤ cs) (hle : cs ≤ cs') (hcs : cs' < 4294967296) :
+    maxBody a cs ≤ maxBody a cs' ∧ 0 < maxBody a cs ∧ maxBody a cs < cs ∧ cs - maxBody a cs ≤ 72 := by
+  have ok := C38_rows_ok a ha
+  have hsig : a.signatureLength ≤ 32 ∧ a.blockSize ≤ 16 := by
+    revert a; decide
+  have hb := C38_overhead_bounded a ok cs h (by omega)
+  have hr := C38_maxBody_range a ok cs h (by omega)
+  exact ⟨C38_maxBody_mono a ok cs cs' h hle hcs, hr.1, hr.2, by omega⟩
+
 /-- non-vacuity: the default chunk size 65535 with Basic256Sha256 -/
 example : maxBody Gen.symBasic256Sha256 65535 = 65463 ∧
     (secureLen Gen.symBasic256Sha256 .signAndEncrypt (rawLenOfBody 65463)).chunkLen = 65520 ∧
